@@ -298,7 +298,7 @@ def translate(pins: dict | None = None):
     out.append("(** GENERATED by translate/tr_dataflow.py from redun/backends/db/__init__.py, redun/expression.py,")
     out.append("    redun/scheduler.py — do not edit. *)")
     out.append("From Coq Require Import List ZArith String Bool.")
-    out.append("From RV Require Import Model.Dataflow Props.C21.")
+    out.append("From RV Require Import Model.Dataflow Proofs.DataflowArgs Props.C21.")
     out.append("Import ListNotations.")
     out.append("")
     out.append("Definition gen_finder : finder := {| " + "; ".join(f"{k} := {cqb(v)}" for k, v in finder.items()) + " |}.")
